@@ -5,6 +5,7 @@ package interp
 // listed in the evidence ("stubs") when hit.
 
 import (
+	"bytes"
 	"fmt"
 	"go/token"
 	"go/types"
@@ -1499,6 +1500,12 @@ func init() {
 	bridge("internal/bytealg.IndexString", strings.Index)
 	bridge("internal/bytealg.CountString", func(s string, c byte) int { return strings.Count(s, string([]byte{c})) })
 	bridge("internal/bytealg.LastIndexByteString", strings.LastIndexByte)
+	bridge("internal/bytealg.IndexByte", bytes.IndexByte)
+	bridge("internal/bytealg.Index", bytes.Index)
+	bridge("internal/bytealg.Equal", bytes.Equal)
+	bridge("internal/bytealg.Compare", bytes.Compare)
+	bridge("internal/bytealg.LastIndexByte", bytes.LastIndexByte)
+	bridge("internal/bytealg.Count", func(b []byte, c byte) int { return bytes.Count(b, []byte{c}) })
 	bridge("internal/stringslite.Index", strings.Index)
 	bridge("internal/stringslite.IndexByte", strings.IndexByte)
 	bridge("internal/stringslite.HasPrefix", strings.HasPrefix)
@@ -1672,4 +1679,75 @@ func init() {
 	externals["(net/netip.Addr).Is4In6"] = func(fr *frame, a []value) value { return a[0].(*nativeAddr).a.Is4In6() }
 	externals["(net/netip.Addr).IsValid"] = func(fr *frame, a []value) value { return a[0].(*nativeAddr).a.IsValid() }
 	externals["(net/netip.Addr).String"] = func(fr *frame, a []value) value { return a[0].(*nativeAddr).a.String() }
+}
+
+func init() {
+	// linkname: mime/multipart.readMIMEHeader is net/textproto.readMIMEHeader
+	externals["mime/multipart.readMIMEHeader"] = func(fr *frame, a []value) value {
+		p := fr.i.prog.ImportedPackage("net/textproto")
+		if p == nil || p.Func("readMIMEHeader") == nil {
+			panic(unsupported{"net/textproto.readMIMEHeader is not loaded"})
+		}
+		return call(fr.i, fr, token.NoPos, p.Func("readMIMEHeader"), a)
+	}
+}
+
+func init() {
+	// sync.Pool: sequential model without reuse — Get always asks New, Put forgets.
+	externals["(*sync.Pool).Get"] = func(fr *frame, a []value) value {
+		st := (*(a[0].(*value))).(structure)
+		idx := -1
+		if t := lookupType("sync", "Pool"); t != nil {
+			if s, ok := t.Underlying().(*types.Struct); ok {
+				for k := 0; k < s.NumFields(); k++ {
+					if s.Field(k).Name() == "New" {
+						idx = k
+					}
+				}
+			}
+		}
+		if idx < 0 || idx >= len(st) || st[idx] == nil {
+			return iface{}
+		}
+		if cl, ok := st[idx].(*closure); ok && cl == nil {
+			return iface{}
+		}
+		return call(fr.i, fr, token.NoPos, st[idx], nil)
+	}
+	externals["(*sync.Pool).Put"] = func(fr *frame, a []value) value { return nil }
+}
+
+func init() {
+	// io.Discard.ReadFrom uses a package-level sync.Pool with a New closure; read and drop instead.
+	externals["(io.discard).ReadFrom"] = func(fr *frame, a []value) value {
+		r, ok := a[1].(iface)
+		if !ok || r.t == nil {
+			rtPanic(fr.i, "runtime error: invalid memory address or nil pointer dereference")
+		}
+		var n int64
+		for rounds := 0; rounds < 1<<16; rounds++ {
+			buf := make([]value, 512)
+			for k := range buf {
+				buf[k] = uint8(0)
+			}
+			res, ok := fr.i.callMethod(fr, r.t, r.v, "Read", buf)
+			if !ok {
+				panic(unsupported{"io.Discard.ReadFrom: reader without Read"})
+			}
+			t := res.(tuple)
+			n += int64(fr.i.concretize(t[0]))
+			if e := t[1].(iface); e.t != nil {
+				if fr.i.isEOF(e) {
+					return tuple{n, iface{}}
+				}
+				return tuple{n, e}
+			}
+		}
+		panic(unsupported{"io.Discard.ReadFrom: reader does not end"})
+	}
+}
+
+func (i *interpreter) isEOF(e iface) bool {
+	eof, ok := i.foreignGlobalValue("io", "EOF").(iface)
+	return ok && eof.t != nil && e.t == eof.t && e.v == eof.v
 }
